@@ -6,6 +6,7 @@ from .core import (AnalysisError, walk_local, calls_in, call_name, dotted, src, 
                    enclosing, enclosing_stmt, is_logging_call, kwarg, self_attr, mangle, const_int, dotted_parts)
 from .cfg import cfg_of, fmt_path
 from . import norm
+from . import core as _core
 
 _MV = re.compile(r'\$(\w+)')
 
@@ -227,7 +228,6 @@ class FuncView:
 
     def value_at(self, expr, use_ast, depth=4, keep=()):
         ''' Inline local names by their unique reaching definition at use_ast. '''
-        import copy
         fv = self
         if depth <= 0:
             return expr
@@ -238,13 +238,13 @@ class FuncView:
                     return node
                 rd = fv.reaching_defs(node.id, use_ast)
                 if len(rd) == 1 and rd[0][1] is not None and isinstance(rd[0][1], ast.expr):
-                    return fv.value_at(copy.deepcopy(rd[0][1]), rd[0][0], depth - 1, keep)
+                    return fv.value_at(_core.clone(rd[0][1]), rd[0][0], depth - 1, keep)
                 return node
 
             def visit_Lambda(self, node):
                 return node
 
-        return Sub().visit(copy.deepcopy(expr))
+        return Sub().visit(_core.clone(expr))
 
 
 def _facts(cfg, kills, avoid, gens=None):
